@@ -34,30 +34,30 @@ Section Ext.
   Proof. intros H. destruct rest; cbn [run]; rewrite H; reflexivity. Qed.
 
   (* the local property of one iteration *)
-  Definition IterExt : Prop := forall pre rest x j t,
+  Definition IterExt : Prop := forall pre rest x j t, j = nnat (length pre) ->
     match iter pre rest j t with
     | Next k t' => (k <= length rest)%nat -> iter pre (rest ++ x) j t = Next k t'
     | Ret o EMore t' =>
       exists k, (k <= length rest)%nat /\ o = j + nnat k /\
-        rq (run iter (zpre k pre (rest ++ x)) (zrest k (rest ++ x)) o 0 t') (run iter pre (rest ++ x) j 0 t)
+        run iter (zpre k pre (rest ++ x)) (zrest k (rest ++ x)) o 0 t' = run iter pre (rest ++ x) j 0 t
     | Ret o e t' => iter pre (rest ++ x) j t = Ret o e t'
     | IPanic => True
     end.
 
   Hypothesis HI : IterExt.
 
-  Lemma run_ext : forall rest pre x j t,
+  Lemma run_ext : forall rest pre x j t, j = nnat (length pre) ->
     match run iter pre rest j 0 t with
     | Done o EMore t' =>
       exists k, (k <= length rest)%nat /\ o = j + nnat k /\
-        rq (run iter (zpre k pre (rest ++ x)) (zrest k (rest ++ x)) o 0 t') (run iter pre (rest ++ x) j 0 t)
-    | Done o e t' => rq (run iter pre (rest ++ x) j 0 t) (Done o e t')
+        run iter (zpre k pre (rest ++ x)) (zrest k (rest ++ x)) o 0 t' = run iter pre (rest ++ x) j 0 t
+    | Done o e t' => run iter pre (rest ++ x) j 0 t = Done o e t'
     | _ => True
     end.
   Proof.
     intros rest. remember (length rest) as n eqn:Hn. revert rest Hn.
-    induction n as [n IH] using lt_wf_ind. intros rest Hn pre x j t.
-    pose proof (HI pre rest x j t) as H.
+    induction n as [n IH] using lt_wf_ind. intros rest Hn pre x j t Hj.
+    pose proof (HI pre rest x j t Hj) as H.
     destruct (iter pre rest j t) as [k t'|o e t'|] eqn:E.
     - (* Next *)
       destruct rest as [|c r]; [cbn [run]; rewrite E; destruct k; exact I|].
@@ -81,7 +81,9 @@ Section Ext.
         rewrite nnat_S. f_equal. lia. }
       rewrite Ep.
       assert (Hlen : (length (zrest (S k) (c :: r)) < n)%nat) by (rewrite zrest_length; subst n; cbn [length] in *; lia).
-      specialize (IH _ Hlen _ eq_refl (zpre (S k) pre (c :: r)) x (j + nnat (S k)) t').
+      assert (Hj' : j + nnat (S k) = nnat (length (zpre (S k) pre (c :: r)))).
+      { unfold zpre. rewrite app_length, rev_length, firstn_length. unfold nnat in *. lia. }
+      specialize (IH _ Hlen _ eq_refl (zpre (S k) pre (c :: r)) x (j + nnat (S k)) t' Hj').
       destruct (run iter (zpre (S k) pre (c :: r)) (zrest (S k) (c :: r)) (j + nnat (S k)) 0 t') as [o e t''| |]; auto.
       destruct e; try (rewrite Ex; exact IH).
       (* EMore further on *)
@@ -93,7 +95,7 @@ Section Ext.
       rewrite (zpre_app (S k) pre (c :: r) x Hk), (zrest_app (S k) (c :: r) x Hk). exact Hrq.
     - (* Ret *)
       rewrite (run_ret _ _ _ _ _ _ _ E).
-      destruct e; try (rewrite (run_ret _ _ _ _ _ _ _ H); apply req_refl).
+      destruct e; try (exact (run_ret _ _ _ _ _ _ _ H)).
       subst n. exact H.
     - destruct rest; cbn [run]; rewrite E; exact I.
   Qed.
@@ -120,11 +122,13 @@ Section Ext.
   Theorem parse_ExtOK : ExtOK (parse iter) obs (fun _ _ => True).
   Proof.
     intros p x i s _ Hi. unfold parse.
-    pose proof (run_ext (skipn (N.to_nat i) p) (rev (firstn (N.to_nat i) p)) x i s) as H.
+    assert (Hlen : i = nnat (length (rev (firstn (N.to_nat i) p)))).
+    { rewrite rev_length, firstn_length. unfold nnat in *. lia. }
+    pose proof (run_ext (skipn (N.to_nat i) p) (rev (firstn (N.to_nat i) p)) x i s Hlen) as H.
     rewrite (zinit_app p x i Hi).
     replace (zinit p i) with (rev (firstn (N.to_nat i) p), skipn (N.to_nat i) p) by reflexivity.
     destruct (run iter (rev (firstn (N.to_nat i) p)) (skipn (N.to_nat i) p) i 0 s) as [o e s'| |]; auto.
-    destruct e; auto.
+    destruct e; try (rewrite H; apply req_refl).
     destruct H as (k & Hk & -> & Hrq). rewrite skipn_length in Hk.
     split; [exact I|]. split; [unfold nnat in *; lia|].
     assert (Hb : (N.to_nat i + k <= length (p ++ x))%nat) by (rewrite app_length; unfold nnat in *; lia).
@@ -133,6 +137,6 @@ Section Ext.
     { rewrite firstn_app. replace (N.to_nat i - length p)%nat with 0%nat by (unfold nnat in *; lia). cbn. now rewrite app_nil_r. }
     assert (E2 : skipn (N.to_nat i) (p ++ x) = skipn (N.to_nat i) p ++ x).
     { rewrite skipn_app. replace (N.to_nat i - length p)%nat with 0%nat by (unfold nnat in *; lia). reflexivity. }
-    rewrite E1, E2. exact Hrq.
+    rewrite E1, E2, Hrq. apply req_refl.
   Qed.
 End Ext.
